@@ -331,7 +331,10 @@ impl VectorJoinOperator {
                         .map_or(0, DataChunk::row_count)
             {
                 match self.left.next()? {
-                    Some(chunk) => {
+                    Some(mut chunk) => {
+                        // A left chunk may carry a selection vector (e.g. from a filter);
+                        // flatten it so rows can be addressed by position.
+                        chunk.flatten();
                         self.current_left_chunk = Some(chunk);
                         self.current_left_row = 0;
                     }
